@@ -51,6 +51,59 @@ pub fn check(run: &CellRun) -> Vec<(String, String)> {
     bad
 }
 
+/// A handle handed back after an I/O fault is still cached data: for every cell that promotes a
+/// read-only hit, each call of the promotion fails in turn; whatever handle comes back must be
+/// read-only, at offset 0 and read as the whole value.
+fn promotion_fault_cases(cell: &Cell, run: &CellRun, rep: &mut Report) {
+    use crate::props::c18::{plausible, FailAt};
+    use std::sync::atomic::AtomicU64;
+    use std::sync::{Arc, Mutex};
+    let m = model(cell);
+    let promotes = matches!(cell.op, MOp::Ensure | MOp::Gou(crate::ops::Act::Promote))
+        && cell.has_writer()
+        && cell.checker == 0
+        && cell.umask == 0o022
+        && matches!(m.first, Some(f) if f >= 1)
+        && m.published;
+    if !promotes {
+        return;
+    }
+    for (k, ev) in run.trace.iter().enumerate() {
+        for a in plausible(ev, false).into_iter().take(2) {
+            let ctl = Arc::new(FailAt { faults: vec![(k as u64, a)], kinds: vec![Some(ev.kind)], n: AtomicU64::new(0), hit: Mutex::new(vec![]) });
+            CONTROLLER.with(|c| *c.borrow_mut() = Some(ctl.clone() as Arc<dyn crate::shim::Controller>));
+            let r2 = run_cell(cell);
+            CONTROLLER.with(|c| *c.borrow_mut() = None);
+            rep.evaluations += 1;
+            rep.states += 1;
+            rep.traces += 1;
+            rep.transitions += r2.trace.len() as u64;
+            rep.count("promotion_fault_cases", 1);
+            if let Some(h) = &r2.outcome.handle {
+                let mut msgs = Vec::new();
+                if h.accmode != libc::O_RDONLY {
+                    msgs.push(format!("access mode {}", h.accmode));
+                }
+                if h.offset != 0 {
+                    msgs.push(format!("positioned at offset {}", h.offset));
+                }
+                if let Res::Hit(b) = &r2.outcome.res {
+                    if world::identify(b).is_none() {
+                        msgs.push(format!("reads as {}", world::describe_bytes(b)));
+                    }
+                }
+                if !msgs.is_empty() {
+                    rep.violation(
+                        "exposure:handle-after-fault",
+                        format!("{} with call {} ({}) failing {:?}: the returned handle is {}", cell.to_json(), k, ev.func, a, msgs.join(", ")),
+                        serde_json::json!({"cell": cell.to_json(), "fault_at": k, "fault": format!("{:?}", a)}),
+                    );
+                }
+            }
+        }
+    }
+}
+
 fn record(cell: &Cell, rep: &mut Report) {
     rep.evaluations += 1;
     rep.states += 1;
@@ -67,13 +120,15 @@ fn record(cell: &Cell, rep: &mut Report) {
     for (sig, msg) in check(&run) {
         rep.violation(format!("exposure:{}", sig), format!("{}: {}", cell.to_json(), msg), cell.to_json());
     }
+    promotion_fault_cases(cell, &run, rep);
 }
 
 pub fn run(_tier: Tier, shard: Shard, rep: &mut Report) {
     rep.rule = "the C13 and C14 matrices (every hit location, action, checker setting, populate outcome) x umask {000, 022, 077}: \
         F_GETFL access mode and lseek(SEEK_CUR) of every returned handle (judge and checker read the files they are given to the \
-        end), bytes read to the end, st_mode of every file visible under the key name in the write cache. Non-trivial = a handle \
-        was returned after a judge or a checker consumed it."
+        end), bytes read to the end, st_mode of every file visible under the key name in the write cache. For every cell that promotes a read-only hit, each call of the promotion additionally fails \
+        in turn (two errnos per call): a handle returned all the same must still be read-only, at offset 0 and whole. Non-trivial = \
+        a handle was returned after a judge or a checker consumed it."
         .into();
     rep.assumptions = vec![
         "the O_RDWR throw-away file returned when no write cache is configured is not cached data: only offset and content are checked".into(),
@@ -99,5 +154,6 @@ pub fn run(_tier: Tier, shard: Shard, rep: &mut Report) {
 }
 
 pub fn replay(case: &Value, rep: &mut Report) {
-    record(&Cell::from_json(case), rep);
+    let cell = case.get("cell").unwrap_or(case);
+    record(&Cell::from_json(cell), rep);
 }
